@@ -168,12 +168,10 @@ EXPORT int swprintf_s(wchar_t *restrict dest, rsize_t dmax,
     }*/
 
 #if defined(HAVE_WCSSTR) || !defined(SAFECLIB_DISABLE_EXTENSIONS)
-    if (unlikely((p = wcsstr((wchar_t *)fmt, L"%n")))) {
-        if ((p - fmt == 0) || *(p - 1) != L'%') {
-            invoke_safe_str_constraint_handler("swprintf_s: illegal %n",
-                                               (void *)dest, EINVAL);
-            return -(EINVAL);
-        }
+    if (unlikely((p = safec_wfmt_find_n(fmt)) != NULL)) {
+        invoke_safe_str_constraint_handler("swprintf_s: illegal %n",
+                                           (void *)dest, EINVAL);
+        return -(EINVAL);
     }
 #elif defined(HAVE_WCSCHR)
     if (unlikely((p = wcschr(fmt, flen, L'n')))) {
